@@ -49,7 +49,6 @@ var wideNow bool
 const wideText = "é日本𝄞ß"
 const wideIdent = "ÿ日ж"
 
-
 func fillerStmt(kind, i int) *Node {
 	switch kind {
 	case 1:
